@@ -24,13 +24,18 @@ RULE = ('case = (configuration in ticks; event list Call/Burst/Advance/BFinish/B
         'for max_batch_size 1..3 x max_concurrent_batches 1..2; random layer: up to 12 calls (mostly distinct keys, some '
         'repeated), gaps on a grid around batch_timeout and every armed deadline, sizes 1..5 with SetMax 1..5, concurrency '
         '1..3, durations from 0 to several batch_timeouts.  non-trivial = at least two batches or a batch of >= 2 items '
-        '(Case_C10.nontrivial, inside Coq); distinct = distinct (case, trace) pairs')
+        '(Case_C10.nontrivial, inside Coq); distinct = distinct (case, trace) pairs'
+        ' The random layer also contains Chain events (a task calling again in the continuation of its answer).')
 EXHAUSTIVE_NOTE = ('all event lists of length <= D (D=5 quick, 6 thorough) with <= 5 calls over the alphabet in the rule, '
                    'for max_batch_size 1..3 x max_concurrent_batches 1..2')
 ASSUMPTIONS = D.ASSUMPTIONS
 TRUSTED = D.TRUSTED
 ALLOWED_AXIOMS = []
-LEVEL_NOTE = D.LEVEL_NOTE
+LEVEL_NOTE = ('trusted: Coq kernel + vm_compute; asyncio primitives (Queue, wait_for, FIFO Semaphore, shield, Future '
+    'done-callbacks, call_later, task wake-up order) are modelled in Batcher.v and validated only by the '
+    'correspondence runs; harness/vloop.py, harness/batcher_drv.py, coq/theories/Case_Batcher.v (agree + monitors).  '
+    'Monitor soundness is proved only for the simple conjuncts (monitor_sound_partial); the other conjuncts are tied '
+    'to the theorems through agree (model trace = observed trace) on every case')
 TECHNIQUE = D.TECHNIQUE
 
 run_impl = D.run_impl
@@ -133,10 +138,16 @@ def gen_search(tier, seed):
 
 
 LEVEL_TEXT = ('On the macro-step model of AsyncBackgroundBatcher (coq/theories/Batcher.v) props/C10.v proves for ALL event '
-              'lists and configurations: every batch handed to the batch function is non-empty and no larger than the '
-              'largest max_batch_size in force while it was collected (<= max_batch_size when it is not mutated), at most '
-              'max_concurrent_batches batches run at once, the concatenated batches are exactly a prefix of the item-creating '
-              'calls in arrival order, a call always joins the open batch while there is one, the open batch\'s deadline is '
-              'the last arrival + batch_timeout and advancing to it hands the batch over (started at once if a slot is free, '
-              'otherwise queued FIFO and started by the next batch end).  Tied to /repo by differential correspondence under '
-              'the virtual-time loop; the monitor ok_C10 judges the observed trace independently of the model.')
+    'lists (incl. SetMax, Cancel, chained calls) and configurations with max_batch_size, max_concurrent_batches >= 1: '
+    'size_bound / size_bound_const — every batch handed to the batch function is non-empty and no larger than the '
+    'largest max_batch_size in force while it was collected (<= max_batch_size without SetMax); conc_bound — at most '
+    'max_concurrent_batches batches run, and a spawned batch waits only while all slots are taken; fifo — the '
+    'concatenated BatchStarts, queued batches and open batch are exactly the item-creating calls in arrival order; '
+    'share_until_full — a call joins the open batch, which is handed over the moment it reaches the limit; '
+    "dispatch_deadline — the open batch's deadline is last arrival + batch_timeout and never passes, every batch is "
+    'spawned at its last arrival if that filled it and exactly batch_timeout later otherwise, spawn order = start '
+    'order = batch ids, no start before the spawn; start_at_spawn_or_release — a batch starts in the step it was '
+    'spawned or in the step that ends another batch; clock_exact — advance never runs out of fuel and the model clock '
+    'is the sum of the Advance events.  Tied to /repo by differential correspondence under the virtual-time loop; the '
+    'monitor ok_C10 judges the observed trace independently of the model (monitor_sound_partial: acceptance implies '
+    'non-empty batches).')
